@@ -634,6 +634,8 @@ func (d *badgerNodeDB) Finalize(roots []node.Root) error { // nolint: gocyclo
 	// Go through all roots and prune them based on whether they are finalized or not.
 	maybeLoneNodes := make(map[hash.Hash]bool)
 	notLoneNodes := make(map[hash.Hash]bool)
+	// Nodes that were (re-)created by roots which are not finalized.
+	discardedNodes := make(map[hash.Hash]bool)
 
 	for rootHash := range rootsMeta.Roots {
 		// TODO: Consider colocating updated nodes with the root metadata.
@@ -669,7 +671,7 @@ func (d *badgerNodeDB) Finalize(roots []node.Root) error { // nolint: gocyclo
 			// roots added in the same version.
 			for _, n := range updatedNodes {
 				if !n.Removed {
-					maybeLoneNodes[n.Hash] = true
+					discardedNodes[n.Hash] = true
 				}
 			}
 
@@ -708,6 +710,33 @@ func (d *badgerNodeDB) Finalize(roots []node.Root) error { // nolint: gocyclo
 		}
 
 		key := nodeKeyFmt.Encode(&h)
+		if err := versionBatch.Delete(key); err != nil {
+			return err
+		}
+	}
+
+	// Clean the nodes of non-finalized roots. Nodes are keyed by their hash, so a non-finalized root
+	// that has re-created a node with the same content as one from an earlier version (e.g., a key
+	// removed and inserted again with the same value) shares it with every root that has inherited
+	// that node. Such a node must stay, removing it at this version would hide it from the
+	// finalized roots of this version and of all later ones.
+	prevTx := d.db.NewTransactionAt(versionToTs(version)-1, false)
+	defer prevTx.Discard()
+	for h := range discardedNodes {
+		if notLoneNodes[h] || maybeLoneNodes[h] {
+			// Kept, or already handled above.
+			continue
+		}
+
+		key := nodeKeyFmt.Encode(&h)
+		switch _, err := prevTx.Get(key); {
+		case err == nil:
+			// Node existed before this version.
+			continue
+		case errors.Is(err, badger.ErrKeyNotFound):
+		default:
+			return fmt.Errorf("mkvs/badger: failed to check for existing node: %w", err)
+		}
 		if err := versionBatch.Delete(key); err != nil {
 			return err
 		}
